@@ -70,12 +70,16 @@ Prophesied(o) ==
        ELSE LET e == v.res[CHOOSE j \in es : TRUE] IN R(e.k, MRec(e.m))
 
 \* a recorded callback value (kind, res) equals the model's Value(c)
-ValueIs(c, kind, res) ==
+ValueIs(c, kind, res, errs) ==
   LET v == Value(c) IN
   /\ kind = v.kind
   /\ Len(res) = Cardinality(tg[c])
   /\ {res[j].t : j \in DOMAIN res} = tg[c]
   /\ \A j \in DOMAIN res : R(res[j].k, MRec(res[j].m)) = v.res[res[j].t]
+  \* the consumers' view: errors by target
+  /\ Len(errs) = Cardinality(DOMAIN v.errs)
+  /\ {errs[j].t : j \in DOMAIN errs} = DOMAIN v.errs
+  /\ \A j \in DOMAIN errs : [k |-> errs[j].k, tok |-> errs[j].tok] = v.errs[errs[j].t]
 HasProph(c) == \E i \in DOMAIN proph : proph[i].c = c
 ProphOf(c) == proph[CHOOSE i \in DOMAIN proph : proph[i].c = c]
 
@@ -128,7 +132,7 @@ MakeRoom(c) ==
       b == commit[q] IN
   IF b # NoCmd
     THEN IF Unfinished(b) # {} THEN FinishStep(b)
-         ELSE /\ HasProph(b) /\ ValueIs(b, ProphOf(b).kind, ProphOf(b).res)
+         ELSE /\ HasProph(b) /\ ValueIs(b, ProphOf(b).kind, ProphOf(b).res, ProphOf(b).errs)
               /\ Deliver(b)
     ELSE queue[q] # <<>> /\ BeginCommit(Head(queue[q]))
 
@@ -165,7 +169,7 @@ Visible ==
     [] a = "Callback" ->
          IF Line.n = 1 /\ delivered[Line.c] = 1 /\ Line.c \in enq
            THEN UNCHANGED vars      \* taken (and its value checked) by MakeRoom
-           ELSE /\ DeliverEnabled(Line.c) /\ ValueIs(Line.c, Line.kind, Line.res)
+           ELSE /\ DeliverEnabled(Line.c) /\ ValueIs(Line.c, Line.kind, Line.res, Line.errs)
                 /\ Deliver(Line.c)
     [] a = "End" -> UNCHANGED vars
     [] OTHER -> FALSE
@@ -192,6 +196,22 @@ EntryOwn(c, e) ==
      /\ e.who = <<c, t>>
      /\ P(c, t) \in DOMAIN mse /\ mse[P(c, t)].ok
 
+\* The result as its consumers read it (Errors() of a multi-response keyed by target, Err() of a
+\* single response; targets named by Err() of a multi-response): exactly the targets whose entry is
+\* a failure (error reply, could not be sent, did not answer), each with that target's own error
+FailingEntry(e) == e.k \in {"timeout", "senderr"} \/ (e.k = "reply" /\ e.m.err)
+ErrMatches(x, e) ==
+  \/ x.k = "timeout" /\ e.k = "timeout" /\ x.who = e.who
+  \/ x.k = "senderr" /\ e.k = "senderr" /\ x.who = e.who
+  \/ x.k = "replyerr" /\ e.k = "reply" /\ e.m.err /\ x.tok = e.m.tok
+ErrorsOwn(c) ==
+  LET F == {Line.res[j].t : j \in {i \in DOMAIN Line.res : FailingEntry(Line.res[i])}} IN
+  /\ Len(Line.errs) = Cardinality(F)
+  /\ {Line.errs[j].t : j \in DOMAIN Line.errs} = F
+  /\ \A j \in DOMAIN Line.errs :
+       \E i \in DOMAIN Line.res : Line.res[i].t = Line.errs[j].t /\ ErrMatches(Line.errs[j], Line.res[i])
+  /\ Line.kind = "multi" => (Len(Line.errtasks) = Cardinality(F) /\ {Line.errtasks[j] : j \in DOMAIN Line.errtasks} = F)
+
 OwnAnswerRec(c) ==
   LET T == Tg(c) IN
   /\ Line.kind = (IF T = {} THEN "nil" ELSE IF Cardinality(T) = 1 THEN "single" ELSE "multi")
@@ -199,6 +219,7 @@ OwnAnswerRec(c) ==
   /\ Len(Line.res) = Cardinality(T)
   /\ {Line.res[j].t : j \in DOMAIN Line.res} = T
   /\ \A j \in DOMAIN Line.res : EntryOwn(c, Line.res[j])
+  /\ ErrorsOwn(c)
 
 Entry(t) == Line.res[CHOOSE j \in DOMAIN Line.res : Line.res[j].t = t]
 HasEntry(t) == \E j \in DOMAIN Line.res : Line.res[j].t = t
@@ -265,7 +286,7 @@ MonitorStep ==
          /\ mcb' = PutF(mcb, Line.c, Cb(Line.c) + 1)
          /\ nviol' = nviol
               + Soft("ExactlyOnce", Cb(Line.c) = 0 /\ Line.c \in menq, <<Line.c, Cb(Line.c) + 1>>)
-              + Soft("OwnAnswer", OwnAnswerRec(Line.c), <<Line.c, Line.kind, Line.res>>)
+              + Soft("OwnAnswer", OwnAnswerRec(Line.c), <<Line.c, Line.kind, Line.res, Line.errs>>)
               + Soft("NoCrossTalk", Cb(Line.c) = 0 => InTimeReplyWins(Line.c), <<Line.c, Line.res>>)
               + Soft("Bounded", Cb(Line.c) = 0 => BoundedRec(Line.c), <<Line.c, Now>>)
               + Soft("TimeoutNotEarly", TimeoutNotEarlyRec(Line.c), <<Line.c, Now>>)
